@@ -72,12 +72,15 @@ else:
         ("kMinPathError+node+length", dict(k=2, weight_type=int, flow_attr_origin="node", length_attr="len", path_length_ranges=[[0, 4], [5, 100]], path_length_factors=[1, 2]), None),
         ("kMinPathError+edge+length", dict(k=2, weight_type=int, length_attr="len", path_length_ranges=[[0, 3], [4, 100]], path_length_factors=[1, 2]), "subpath_constraints"),
         ("MinErrorFlow+eps", dict(weight_type=int, few_flow_values_epsilon=0.5), None),
+        # caller-supplied safe paths inside the option dict, next to fully covered subpath constraints (which the model turns into further safe lists)
+        ("kLeastAbsErrors+extsafe", dict(k=2, weight_type=int), "subpath_constraints"),
+        ("kMinPathError+extsafe", dict(k=2, weight_type=int), "subpath_constraints"),
     ]
     CONSTRAINT = [[("a", "b"), ("b", "d")]]
     IGNORE = [("b", "c")]
 
 def _fresh_shared():
-    return {{"G": _graph(), "opts": {{"optimize_with_safe_zero_edges": True, "use_subgraph_scanning_lowerbound": True}}, "sopts": {{"threads": 2}}, "constraints": copy.deepcopy(CONSTRAINT), "ignore": list(IGNORE), "ignore_empty": []}}
+    return {{"G": _graph(), "opts": {{"optimize_with_safe_zero_edges": True, "use_subgraph_scanning_lowerbound": True}}, "sopts": {{"threads": 2}}, "opts_ext": {{"external_safe_paths": [[("a", "b")]]}}, "constraints": copy.deepcopy(CONSTRAINT), "ignore": list(IGNORE), "ignore_empty": []}}
 
 fp.MinFlowDecomp.subgraph_lowerbound_size = 2
 fp.MinFlowDecomp.subgraph_lowerbound_shift = 1
@@ -85,7 +88,7 @@ fp.MinFlowDecomp.subgraph_lowerbound_shift = 1
 def _snap(sh):
     G = sh["G"]
     return (sorted(G.nodes(data=True), key=str).__repr__(), sorted(G.edges(data=True), key=str).__repr__(), repr(sorted(G.graph.items())),
-            repr(sh["opts"]), repr(sh["sopts"]), repr(sh["constraints"]), repr(sh["ignore"]), repr(sh["ignore_empty"]))
+            repr(sh["opts"]), repr(sh["opts_ext"]), repr(sh["sopts"]), repr(sh["constraints"]), repr(sh["ignore"]), repr(sh["ignore_empty"]))
 
 def _run(ci, share_opts, share_lists, sh):
     name, kw, ckey = CLASSES[ci]
@@ -93,7 +96,11 @@ def _run(ci, share_opts, share_lists, sh):
     kw = copy.deepcopy(kw)
     if name.endswith("+scanning") and not share_opts:
         kw["optimization_options"] = {{"use_subgraph_scanning_lowerbound": True}}
-    if share_opts and name.startswith("MinErrorFlow"):
+    if name.endswith("+extsafe"):
+        kw["optimization_options"] = sh["opts_ext"] if share_opts else {{"external_safe_paths": [[("a", "b")]]}}
+        if share_opts:
+            kw["solver_options"] = sh["sopts"]
+    elif share_opts and name.startswith("MinErrorFlow"):
         kw["solver_options"] = sh["sopts"]          # this class takes no optimization_options
     elif share_opts:
         kw["optimization_options"] = sh["opts"]
@@ -224,7 +231,7 @@ def run_task(task):
     return res
 
 
-DAG_NAMES = ["kFlowDecomp", "MinFlowDecomp", "kLeastAbsErrors", "kMinPathError", "kPathCover", "MinPathCover", "kLeastAbsErrors+superset", "kMinPathError+superset", "kMinPathError+scale0", "kLeastAbsErrors+scale0", "MinFlowDecomp+scanning", "kMinPathError+node+length", "kMinPathError+edge+length", "MinErrorFlow+eps"]
+DAG_NAMES = ["kFlowDecomp", "MinFlowDecomp", "kLeastAbsErrors", "kMinPathError", "kPathCover", "MinPathCover", "kLeastAbsErrors+superset", "kMinPathError+superset", "kMinPathError+scale0", "kLeastAbsErrors+scale0", "MinFlowDecomp+scanning", "kMinPathError+node+length", "kMinPathError+edge+length", "MinErrorFlow+eps", "kLeastAbsErrors+extsafe", "kMinPathError+extsafe"]
 CYC_NAMES = ["kFlowDecompCycles", "MinFlowDecompCycles", "kLeastAbsErrorsCycles", "kMinPathErrorCycles", "kPathCoverCycles", "MinPathCoverCycles", "kMinPathErrorCycles+scale0", "kLeastAbsErrorsCycles+scale0", "kMinPathErrorCycles+percentile", "kLeastAbsErrorsCycles+node", "MinErrorFlow+eps"]
 
 
